@@ -164,6 +164,15 @@ pub fn run_fam(cfg: &RunCfg, blocking: bool) -> Report {
 						index: i,
 						log: out.log.iter().rev().take(60).rev().cloned().collect(),
 					}),
+					Abort::Deadlock => rep.violations.push(VRec {
+						prop: "C04".into(),
+						rule: "try_call_blocked".into(),
+						detail: format!("a try_* call blocked: {}", out.deadlock_witness),
+						signature: "C04:try_call_blocked".into(),
+						case: format!("{} {}", arena_desc(arena_spec), target_desc(target)),
+						index: i,
+						log: out.log.iter().rev().take(60).rev().cloned().collect(),
+					}),
 					_ => rep.inconclusive.push(format!("shape {i} aborted: {:?} {}", a, out.deadlock_witness)),
 				}
 			}
